@@ -16,7 +16,8 @@
 (* (DistinctSlots fails) -- which is why the property excludes that mode.           *)
 EXTENDS OpMachine, TLC
 
-CONSTANTS K,             \* ring capacity (prm.K)
+CONSTANTS RebuildAll,    \* TRUE: rebuild() renews every part of the hierarchy (the code as it should be)
+          K,             \* ring capacity (prm.K)
           MaxRestarts,   \* restart cycles per call <= MaxRestarts
           MaxCalls,
           AlwaysReset,
@@ -28,9 +29,15 @@ VARIABLES st,            \* OpMachine state
           phase,         \* "idle" | "running"
           cycles,        \* restart cycles done in the running call
           hist,          \* history of call kinds (ghost)
-          leak, dup      \* ghost flags
+          leak, dup,     \* ghost flags
+          ver,           \* version of the matrix the object currently stands for (rebuild() switches it)
+          parts          \* version each persistent part of the preconditioner was computed from
 
-vars == <<st, ring, nouter, phase, cycles, hist, leak, dup>>
+vars == <<st, ring, nouter, phase, cycles, hist, leak, dup, ver, parts>>
+
+\* persistent parts of an amg hierarchy: level matrices, the smoothers of the levels that have a coarser one,
+\* and on the coarsest level either the direct solver or (direct_coarse = false / max_levels reached) a smoother
+Parts == {"level-matrices", "smoothers", "coarse-direct-solver", "coarse-smoother"}
 
 Slot(k) == <<"outer", k>>
 Work    == {<<"r", 0>>, <<"v", 0>>, <<"v", 1>>}
@@ -39,9 +46,12 @@ X   == <<"x", 0>>
 
 Init == /\ st = Machine0 /\ ring = <<>> /\ nouter = 0 /\ phase = "idle" /\ cycles = 0
         /\ hist = <<>> /\ leak = FALSE /\ dup = FALSE
+        /\ ver = 0 /\ parts = [q \in Parts |-> 0]
 
 \* a call starts: zero right-hand side returns at once (x cleared), otherwise the iteration runs
 Begin(kind) ==
+    /\ kind # "rebuild"
+    /\ UNCHANGED <<ver, parts>>
     /\ phase = "idle" /\ Len(hist) < MaxCalls
     /\ hist' = Append(hist, kind)
     /\ LET s1 == BeginCall(st, {RHS, X})
@@ -72,18 +82,30 @@ Restart ==
            \* the slot about to be overwritten must not still be referenced by the ring
            /\ dup' = (dup \/ (\E k \in 1..Len(ring) : ring[k] = slot /\ ~(Len(ring) = K /\ k = 1)))
            /\ ring' = pushed /\ nouter' = nouter + 1 /\ cycles' = cycles + 1
-    /\ UNCHANGED <<phase, hist>>
+    /\ UNCHANGED <<phase, hist, ver, parts>>
+
+\* rebuild(A'): the object now stands for A'; every persistent part is recomputed from it (the transfer
+\* operators are kept, which is why only matrices with the same transfer operators are legal arguments).
+\* RebuildAll = FALSE documents the seeded fault "the smoother of a relaxed coarsest level is not renewed".
+Rebuild ==
+    /\ "rebuild" \in Kinds /\ phase = "idle" /\ Len(hist) < MaxCalls
+    /\ hist' = Append(hist, "rebuild")
+    /\ ver' = 1 - ver
+    /\ parts' = [q \in Parts |-> IF RebuildAll \/ q # "coarse-smoother" THEN 1 - ver ELSE parts[q]]
+    /\ UNCHANGED <<st, ring, nouter, phase, cycles, leak, dup>>
 
 \* the call returns (converged, budget exhausted, diverged, NaN, or an exception unwound it)
-Return == /\ phase = "running" /\ phase' = "idle" /\ UNCHANGED <<st, ring, nouter, cycles, hist, leak, dup>>
+Return == /\ phase = "running" /\ phase' = "idle" /\ UNCHANGED <<st, ring, nouter, cycles, hist, leak, dup, ver, parts>>
 
-Next == (\E kind \in Kinds : Begin(kind)) \/ Restart \/ Return
+Next == (\E kind \in Kinds : Begin(kind)) \/ Rebuild \/ Restart \/ Return
 Spec == Init /\ [][Next]_vars
 
 NoLeak        == ~leak
 DistinctSlots == ~dup
 RingBounded   == Len(ring) <= K /\ \A k \in 1..Len(ring) : ring[k] \in 0..(K - 1)
 ResetClears   == (AlwaysReset /\ phase = "running" /\ cycles = 0) => ring = <<>>
+\* whatever a call uses was computed from the matrix the object currently stands for
+OneVersion    == \A q \in Parts : parts[q] = ver
 \* export every complete history (for the replay against the real objects)
 EmitHistories == (phase = "idle" /\ Len(hist) = MaxCalls) => PrintT("HIST " \o ToString(hist))
 =============================================================================
